@@ -1,4 +1,5 @@
 import AtreeProofs.Props.TransMapDescentInv
+import AtreeProofs.Map.Root
 /-
   MAP DESCENT, round 3 (WP13): the SPLIT tail of the `Set` composition discharged for the restructuring record built from
   the GENERATED code, `rs := rsOf T`, with the provider invariant `Q := MQ T D` (Props/TransMapDescentInv.lean):
@@ -265,7 +266,7 @@ theorem mts_split_ctx (d : Nat) (child l rr : MTree r d) (c c1 : Ctx) (hsp : MTr
 /-- the `splitRoot` field of `MRootTail T (rsOf T) Q`, for any provider invariant `Q` (see the note above) -/
 theorem MRootTail_splitRoot_rsOf_partial (Q : (d : Nat) → MTree r d → Prop)
     (hHyp : ∀ m : OMap r, Q m.d m.root → root_splitHyp m)
-    (hFit : ∀ (m : OMap r) (c : Ctx) (l rr : MTree r m.d) (c2 : Ctx), Q m.d m.root →
+    (hFit : ∀ (m : OMap r) (c : Ctx) (l rr : MTree r m.d) (c2 : Ctx), Q m.d m.root → MTree.isFull T m.d m.root = true →
       MTree.split m.d (mrs_rootOld m c) (c.alloc m.rootID.addr).2 = .ok (l, rr, c2) → mr_RootFit m.d l ∧ mr_RootFit m.d rr)
     (hFitRoot : ∀ m : OMap r, Q m.d m.root → mr_RootFit m.d m.root)
     (hQ' : ∀ (m : OMap r) (c : Ctx) (m3 : OMap r) (c3 : Ctx), Q m.d m.root → MTree.isFull T m.d m.root = true →
@@ -285,7 +286,7 @@ theorem MRootTail_splitRoot_rsOf_partial (Q : (d : Nat) → MTree r d → Prop)
     rw [hmod]
     exact ⟨_, Ob_splitRoot_heap_error T m2 s2 (hHyp m2 hpre.inv) hmod (hFitRoot m2 hpre.inv)⟩
   · simp only [hsp] at hmod
-    obtain ⟨hfl, hfr⟩ := hFit m2 s2.ctx l rr c2 hpre.inv hsp
+    obtain ⟨hfl, hfr⟩ := hFit m2 s2.ctx l rr c2 hpre.inv hfull hsp
     obtain ⟨hres, hctx, _⟩ := Ob_splitRoot_heap T m2 s2 (hHyp m2 hpre.inv) hmod hsp hfl hfr
     have hQ3 := hQ' m2 s2.ctx _ _ hpre.inv hfull hmod
     rw [hmod]
@@ -392,6 +393,130 @@ theorem mts_MQ_splitRoot_false (m m3 : OMap r) (c c3 : Ctx) (h : m.splitRoot c =
   · simp only [hsp] at h
     cases h
     exact mts_MQ_newRoot_false m l rr
+
+/-! ## the `splitRoot` field for a handle-level (`top := true`) provider invariant -/
+
+/-- the `top := true` variant of `MQ`: what the handle's root satisfies when `splitRootIfFull` looks at it (loose root
+    invariant, not inlined, at most one entry / header over the band, `uint64` digests) -/
+def mts_MQtop (T : Nat) (D : DigestFn (r + 1)) (d : Nat) (t : MTree r d) : Prop :=
+  SInv T D d true t ∧ treeInl d t = false ∧ (MTree.hdr d t).size ≤ maxThr T + slack1 T d ∧
+    ∀ x ∈ MTree.digests0 d t, x < 2^64
+
+/-- the old root of Props/TransMapRestructRoot.lean is the model proofs' `deroot` -/
+theorem mts_rootOld_eq (d : Nat) (root : MTree r d) (ty cnt seed : Nat) (c : Ctx) :
+    mrs_rootOld (⟨d, root, ty, cnt, seed⟩ : OMap r) c = deroot d root (c.alloc (MTree.hdr d root).id.addr).1 := by
+  cases d <;> rfl
+
+/-- under `mts_MQtop` a full root is split by the model into two valid non-root slabs -/
+theorem mts_rootSplit (hT : legalThreshold T = true) (d : Nat) (root : MTree r d) (ty cnt seed : Nat) (c : Ctx)
+    (hq : mts_MQtop T D d root) (hfull : MTree.isFull T d root = true) :
+    ∃ l rr c2, MTree.split d (mrs_rootOld (⟨d, root, ty, cnt, seed⟩ : OMap r) c)
+        (c.alloc (OMap.rootID (⟨d, root, ty, cnt, seed⟩ : OMap r)).addr).2 = .ok (l, rr, c2) ∧
+      MTreeInv T D d false l ∧ MTreeInv T D d false rr ∧
+      (MTree.hdr d l).id.addr = (MTree.hdr d root).id.addr ∧ (MTree.hdr d rr).id.addr = (MTree.hdr d root).id.addr ∧
+      MTree.digests0 d root = MTree.digests0 d l ++ MTree.digests0 d rr := by
+  obtain ⟨hS, hinl, hle, _⟩ := hq
+  have F := deroot_facts (T := T) (D := D) d root (c.alloc (MTree.hdr d root).id.addr).1 hS hinl rfl
+  obtain ⟨l, rr, heq, hl, hr, hid1, hid2, _, hdg, _, _⟩ := MTree.split_spec hT d
+    (deroot d root (c.alloc (MTree.hdr d root).id.addr).1) (c.alloc (MTree.hdr d root).id.addr).2
+    F.sinv (F.full (mts_isFull_lt d root hfull)) (F.le hle)
+  have heq' := heq
+  rw [← mts_rootOld_eq d root ty cnt seed c] at heq'
+  refine ⟨l, rr, _, heq', hl, hr, ?_, ?_, ?_⟩
+  · rw [hid1, F.id]; rfl
+  · rw [hid2, F.id]; rfl
+  · rw [← F.digs]; exact hdg
+
+theorem mts_SplitOK_of_top (hT : legalThreshold T = true) : ∀ (d : Nat) (t : MTree r d), mts_MQtop T D d t → msl_SplitOK d t
+  | 0, (s : MDataSlab r), hq => by
+    have hs : MDataLoose T D true s := hq.1
+    have hle : s.hdr.size ≤ maxThr T + maxEntry T := hq.2.2.1
+    have hei := hs.elems_inv
+    simp only [ElemsInv] at hei
+    have hsz := hs.size_eq
+    have hfit := msafe_elem_fits hT
+    have hw : MDataWork T s := by
+      refine ⟨hei.2.2.1, hei.2.2.2.2.1, by rw [hei.2.1]; decide, ?_⟩
+      simp only [maxEntry] at hle hfit
+      omega
+    have hf := msafe_work_fits hT hw
+    have hl := hw.hkeys_len
+    exact ⟨by omega, by simp only [Gen.mapDataSlabPrefixSize]; omega, hf.2.2.2, by omega⟩
+  | d + 1, (m : MMetaSlab (MTree r d)), hq => by
+    have hs : MetaLoose T D d true m ∧ 1 ≤ m.children.length := hq.1
+    have hw : MMetaWork m := by
+      show m.hdr.size = _
+      rw [hs.1.2.2.1, hs.1.2.1, List.length_map]
+    exact msafe_meta_hcov hw
+
+theorem mts_hHyp_top (hT : legalThreshold T = true) (m : OMap r) (hq : mts_MQtop T D m.d m.root) : root_splitHyp m := by
+  obtain ⟨d, root, ty, cnt, seed⟩ := m
+  cases d with
+  | zero => exact mts_SplitOK_of_top hT 0 root hq
+  | succ d => exact mts_SplitOK_of_top hT (d + 1) root hq
+
+theorem mts_RootFit_of_top (hT : legalThreshold T = true) : ∀ (d : Nat) (t : MTree r d), mts_MQtop T D d t → mr_RootFit d t
+  | 0, (s : MDataSlab r), hq => by
+    have hs : MDataLoose T D true s := hq.1
+    have hle : s.hdr.size ≤ maxThr T + maxEntry T := hq.2.2.1
+    have hei := hs.elems_inv
+    simp only [ElemsInv] at hei
+    have hsz := hs.size_eq
+    have hfit := msafe_elem_fits hT
+    have := thresholds_fit hT
+    refine ⟨?_, by rw [hei.2.1]; decide, hq.2.2.2⟩
+    simp only [maxEntry] at hle hfit
+    omega
+  | _ + 1, _, _ => trivial
+
+/-- **the `splitRoot` field of `MRootTail T (rsOf T) Q` for the handle-level invariant `Q := mts_MQtop T D`** -/
+theorem MRootTail_splitRoot_rsOf_top (D : DigestFn (r + 1)) (hT : legalThreshold T = true) :
+    ∀ (addr : Nat) (m2 : OMap r) (s2 : MHSt r) (x0 : Option DX),
+      mds_RootPre (mts_MQtop T D) addr s2 m2 x0 → MTree.isFull T m2.d m2.root = true →
+      match m2.splitRoot s2.ctx with
+      | .ok (m3, c3) =>
+        ∃ s3, (rsOf T).splitRoot (md_map m2 s2) = (none, md_map m3 s3) ∧ s3.ctx = c3 ∧ s3.popped = s2.popped ∧
+          mds_RootPre (mts_MQtop T D) addr s3 m3 (some (md_extra m3)) ∧
+          mds_Delta s2.heap s3.heap (md_ids m2.d m2.root) (md_ids m3.d m3.root)
+      | .error e => ∃ M', (rsOf T).splitRoot (md_map m2 s2) = (some e, M') := by
+  refine MRootTail_splitRoot_rsOf_partial (mts_MQtop T D) (fun m hq => mts_hHyp_top hT m hq) ?_
+    (fun m hq => mts_RootFit_of_top hT m.d m.root hq) ?_
+  · intro m c l rr c2 hq hfull hsp
+    obtain ⟨d, root, ty, cnt, seed⟩ := m
+    obtain ⟨l', rr', c2', heq, hl, hr, _, _, hdg⟩ := mts_rootSplit hT d root ty cnt seed c hq hfull
+    have hsp' : MTree.split d (mrs_rootOld (⟨d, root, ty, cnt, seed⟩ : OMap r) c)
+        (c.alloc (OMap.rootID (⟨d, root, ty, cnt, seed⟩ : OMap r)).addr).2 = .ok (l, rr, c2) := hsp
+    rw [heq] at hsp'
+    cases hsp'
+    exact ⟨mts_RootFit_of_inv hT d l hl (fun y hy => hq.2.2.2 y (by rw [hdg]; exact List.mem_append_left _ hy)),
+      mts_RootFit_of_inv hT d rr hr (fun y hy => hq.2.2.2 y (by rw [hdg]; exact List.mem_append_right _ hy))⟩
+  · intro m c m3 c3 hq hfull hsr
+    obtain ⟨d, root, ty, cnt, seed⟩ := m
+    obtain ⟨l, rr, c2, heq, hl, hr, ha1, ha2, hdg⟩ := mts_rootSplit hT d root ty cnt seed c hq hfull
+    have hmod := mrs_splitRoot_model (⟨d, root, ty, cnt, seed⟩ : OMap r) c
+    simp only [heq] at hmod
+    rw [hmod] at hsr
+    cases hsr
+    have hb := map_legal_bounds hT
+    have hdigs : MTree.digests0 (d + 1) (mrs_newRoot (⟨d, root, ty, cnt, seed⟩ : OMap r) l rr) = MTree.digests0 d root := by
+      show List.flatMap (MTree.digests0 d) [l, rr] = _
+      simp only [List.flatMap_cons, List.flatMap_nil, List.append_nil]
+      exact hdg.symm
+    refine ⟨⟨MetaLoose.mk' rfl rfl rfl rfl ?_ ?_, by show 1 ≤ 2; omega⟩, rfl, ?_, ?_⟩
+    · intro x hx
+      have hx' : x ∈ [l, rr] := hx
+      simp only [List.mem_cons, List.mem_nil_iff, or_false] at hx'
+      rcases hx' with rfl | rfl
+      · exact ⟨hl, ha1, hl.fk hT⟩
+      · exact ⟨hr, ha2, hr.fk hT⟩
+    · show (MTree.digests0 (d + 1) (mrs_newRoot (⟨d, root, ty, cnt, seed⟩ : OMap r) l rr)).Pairwise (· < ·)
+      rw [hdigs]; exact SInv.sorted d true root hq.1
+    · show Gen.mapMetaDataSlabPrefixSize + Gen.mapSlabHeaderSize * 2 ≤ maxThr T + Gen.mapSlabHeaderSize
+      simp only [Gen.mapMetaDataSlabPrefixSize, Gen.mapSlabHeaderSize, maxThr]; omega
+    · intro y hy
+      have hy' : y ∈ MTree.digests0 (d + 1) (mrs_newRoot (⟨d, root, ty, cnt, seed⟩ : OMap r) l rr) := hy
+      rw [hdigs] at hy'
+      exact hq.2.2.2 y hy'
 
 end
 
